@@ -61,6 +61,10 @@ class Concretizer:
         if ov is not None:
             typ = ov
         k = typ[0]
+        from . import seqs
+        r = seqs.entry_hook(self, typ, name, depth)
+        if r is not seqs.NOT_HANDLED:
+            return r
         if k == 'int':
             return _ev(self.model, z3.Int(name))
         if k == 'bool':
@@ -174,6 +178,10 @@ class Concretizer:
                     'fields': {k: self.value(x, depth + 1) for k, x in v.fields.items()}}
         if isinstance(v, Opaque):
             return {'$opaque': v.tag}
+        from . import seqs
+        r = seqs.value_hook(self, v, depth)
+        if r is not seqs.NOT_HANDLED:
+            return r
         return {'$opaque': repr(v)}
 
 
